@@ -147,6 +147,8 @@ def tla_seq(xs) -> str:
 
 def tla_val(x) -> str:
     """Python value -> TLA+ literal (ints, bools, strs, lists/tuples, sets, dicts with str keys)."""
+    if isinstance(x, Raw):
+        return str(x)
     if isinstance(x, bool):
         return "TRUE" if x else "FALSE"
     if isinstance(x, int):
@@ -166,3 +168,46 @@ def tla_val(x) -> str:
     if x is None:
         return '"None"'
     raise MachineryError(f"cannot render {x!r} as TLA+")
+
+
+def instance(module: str, consts: dict, *, invariants=(), properties=(), action_constraint=None,
+             constraint=None, view=None, init="Init", next="Next", postcondition=None, spec=None):
+    """Build (root_module_name, extra_tla, cfg_text) for `module` with constants given as TLA+ expressions.
+
+    Constants are defined in a generated wrapper module and substituted with `<-`, so negative
+    numbers, tuples and large literal sets are all fine (the cfg parser is limited).
+    """
+    root = f"I_{module}"
+    defs = "\n".join(f"c_{k} == {tla_val(v)}" for k, v in consts.items())
+    text = f"---- MODULE {root} ----\nEXTENDS {module}\n{defs}\n====\n"
+    lines = []
+    if spec:
+        lines.append(f"SPECIFICATION {spec}")
+    else:
+        lines += [f"INIT {init}", f"NEXT {next}"]
+    if consts:
+        lines.append("CONSTANTS")
+        lines += [f"  {k} <- c_{k}" for k in consts]
+    lines += [f"INVARIANT {i}" for i in invariants]
+    lines += [f"PROPERTY {p}" for p in properties]
+    if action_constraint:
+        lines.append(f"ACTION_CONSTRAINT {action_constraint}")
+    if constraint:
+        lines.append(f"CONSTRAINT {constraint}")
+    if view:
+        lines.append(f"VIEW {view}")
+    if postcondition:
+        lines.append(f"POSTCONDITION {postcondition}")
+    return root, {f"{root}.tla": text}, "\n".join(lines) + "\n"
+
+
+def run_instance(module, consts, *, name=None, **kw):
+    ikeys = ("invariants", "properties", "action_constraint", "constraint", "view", "init", "next", "postcondition", "spec")
+    ikw = {k: kw.pop(k) for k in ikeys if k in kw}
+    root, extra, cfg = instance(module, consts, **ikw)
+    extra.update(kw.pop("extra_tla", None) or {})
+    return run(root, cfg, name=name or module, extra_tla=extra, **kw)
+
+
+class Raw(str):
+    """A TLA+ expression given verbatim (not quoted as a string)."""
